@@ -283,7 +283,19 @@ def gen_cfg_family(rng):
     if rng.random() < 0.3:
         fam.append({"k": "addto", "src": rng.randrange(len(fam)), "rule": dict(rule_ast(rng, names, 9), id="RX")})
         kinds.append("derived_by_add")
+    twin = None
+    if rng.random() < 0.2 and len(names) >= 4:
+        # two configurators that SHARE a rule object through add(): the old rule holds an anonymous Any(rest); the added
+        # rule is a defaulted Any/Xor whose non-default branch is a look-alike of it (same generated id)
+        its = rng.sample(names, rng.randint(3, 4)); d0, rest = its[0], its[1:]
+        old = {"k": "Imply", "ch": [{"k": "str", "id": rng.choice(names)}, {"k": "Any", "ch": [{"k": "str", "id": i} for i in rest], "id": None}], "id": rng.choice(["K1", "Z1"])}
+        new = {"k": rng.choice(["CcAny", "CcXor"]), "ch": [{"k": "str", "id": i} for i in its], "default": [d0], "id": "M1"}
+        fam.append({"k": "Stingy", "ch": [old], "id": "cfg"}); kinds.append("twin_base")
+        fam.append({"k": "addto", "src": len(fam) - 1, "rule": new}); kinds.append("twin_derived_by_add")
+        twin = (len(fam) - 2, len(fam) - 1)
     ops = []
+    if twin:
+        ops += [{"op": rng.choice(["poly", "prios"]), "obj": twin[1]}, {"op": "prios", "obj": twin[0]}, {"op": "poly", "obj": twin[0]}]
     for _ in range(rng.randint(4, 12)):
         k = rng.randrange(len(fam))
         r = rng.random()
